@@ -8,7 +8,7 @@ Definition real_errors (es : list err) : list err := filter (fun e => negb (is_i
 
 Definition all_fails (rs : list (string * nres)) : list err :=
   flat_map (fun kr => match snd kr with NErr es => map (wrap_node (fst kr)) (real_errors es) | _ => [] end) rs.
-Definition all_items (rs : list (string * nres)) : list err :=
+Definition all_items (rs : list (string * nres)) : list item :=
   flat_map (fun kr => match snd kr with NOk it _ => it | _ => [] end) rs.
 Definition any_int (rs : list (string * nres)) : bool :=
   existsb (fun kr => match snd kr with NErr es => existsb is_interrupt_task es | _ => false end) rs.
@@ -52,7 +52,7 @@ Qed.
 
 Definition is_leaf (n : node) : bool := match n with NSub _ _ => false | _ => true end.
 
-Definition exec_leaf (stream : bool) (items : list err) (n : node) : nres :=
+Definition exec_leaf (stream : bool) (items : list item) (n : node) : nres :=
   match n with
   | NLam _ f b => exec_lambda stream items f b
   | NTools _ ts => exec_tools stream items ts
@@ -76,6 +76,9 @@ Inductive reported (F : forest) (stream : bool) : graph -> err -> list string ->
     In st (g_stages g) -> In n st -> is_leaf n = true ->
     exec_leaf stream items n = NErr es -> In r es -> is_interrupt_task r = false ->
     reported F stream g (wrap_node (node_key n) r) [node_key n] r
+| rep_sub_panic : forall g st k gi g' i,
+    In st (g_stages g) -> In (NSub k gi) st -> nth_error F gi = Some g' ->
+    reported F stream g (wrap_node k (PanicErr i)) [k] (PanicErr i)
 | rep_sub : forall g st k gi g' e p r,
     In st (g_stages g) -> In (NSub k gi) st -> nth_error F gi = Some g' ->
     reported F stream g' e p r -> is_interrupt_task e = false ->
@@ -97,7 +100,7 @@ Section RunProofs.
   Variable F : forest.
   Variable stream : bool.
 
-  Definition rec_ok (rec : graph -> list err -> bool -> gres) : Prop :=
+  Definition rec_ok (rec : graph -> list item -> bool -> gres) : Prop :=
     forall g' items canc es e, rec g' items canc = GFail es -> In e es ->
       exists p r, reported F stream g' e p r.
 
@@ -119,8 +122,10 @@ Section RunProofs.
       destruct (any_fuel rs); [discriminate|].
       destruct (all_fails rs) as [|f0 fs] eqn:Ef.
       + destruct (any_int rs).
-        * cbn [app] in Hrun. destruct (all_items rs) as [|i its]; [discriminate|].
-          inversion Hrun; subst. change (In e (map (fun e => Wrapf (Wrapf e)) (i :: its))) in Hin.
+        * cbn [app] in Hrun. destruct (first_lazy (all_items rs)); [discriminate|].
+          destruct (item_errors (all_items rs)) as [|i its] eqn:Eits; [discriminate|].
+          inversion Hrun; subst es.
+          change (In e (map (fun e => Wrapf (Wrapf e)) (i :: its))) in Hin.
           apply in_map_iff in Hin. destruct Hin as [it [<- _]].
           do 2 eexists. apply rep_graph. right. right. eauto.
         * destruct rest as [|st' rest'].
@@ -135,10 +140,12 @@ Section RunProofs.
         destruct n as [key fl b|key gi|key ts].
         * exists [key], e'. eapply (rep_leaf F stream g st (NLam key fl b)); eauto.
         * cbn [exec_node] in H1. destruct (nth_error F gi) as [g'|] eqn:Eg; [|discriminate].
-          destruct (rec g' items false) as [it c|es''| |] eqn:Er; try discriminate.
+          destruct (rec g' items false) as [it c|es''| |i|] eqn:Er; try discriminate.
           -- inversion H1; subst es'. destruct (Hrec _ _ _ _ _ Er He') as [p [r Hr]].
              exists (key :: p), r. eapply rep_sub; eauto.
           -- inversion H1; subst es'. destruct He' as [<-|[]]. discriminate.
+          -- inversion H1; subst es'. destruct He' as [<-|[]].
+             exists [key], (PanicErr i). eapply rep_sub_panic; eauto.
         * exists [key], e'. eapply (rep_leaf F stream g st (NTools key ts)); eauto.
   Qed.
 
